@@ -36,7 +36,7 @@ def main(argv=None) -> int:
             build = dict(driver_ok=True, proof_ok=True, log="", theorems=["<skipped>"], discharged=["<skipped>"],
                          bad=[], forbidden=[], translate_changed=[])
         else:
-            build = common.build_all(prop)
+            build = common.build_all(prop, a.tier)
         if not build["driver_ok"]:
             common.log(build["log"][-3000:])
             print(f"machinery error: model driver does not build", file=sys.stderr)
